@@ -71,6 +71,7 @@ struct Context
     cld sigma = 0;
     ld norm_shifted = 0, kappa_shifted = 1, normOP = 0;  // 2-norms: ||A - sigma I||, cond, ||(A - sigma I)^-1||
     bool critical_construction = false;
+    bool re_sigma_on_eigenvalue = false;  // constructed: Re sigma is EXACTLY an eigenvalue of A (legal: A - sigma I is nonsingular for Im sigma != 0)
 };
 
 static cld nu_of(const Context& cx, cld lambda)
@@ -116,11 +117,20 @@ static void check_pairs(Solver& eigs, Index ret, const Context& cx, const Args& 
         {
             // complex shift: nu(lambda) has critical points, so the back-transformed scale depends on the spectrum:
             // K = max_j |lambda_j - theta| / |nu_j - nu(theta)| (j != nearest), and 1/|nu'(lambda_j*)| for the nearest one
+            // Both roots of the back-transformation map to the same nu, so nu_of(theta) IS the Ritz value the solver converged on, whichever
+            // root it reported. The eigenvalue it belongs to is therefore identified in the nu-plane (nearest nu_j), not by the reported
+            // theta: a wrongly selected root must not be able to move the reference point (and with it the scale) of its own check.
             cld nu = nu_of(cx, th[i]);
             size_t jstar = 0;
             for (size_t j = 1; j < cx.ref_ev.size(); j++)
-                if (std::abs(cx.ref_ev[j] - th[i]) < std::abs(cx.ref_ev[jstar] - th[i]))
+                if (std::abs(nu_of(cx, cx.ref_ev[j]) - nu) < std::abs(nu_of(cx, cx.ref_ev[jstar]) - nu))
                     jstar = j;
+            if (cx.re_sigma_on_eigenvalue && std::abs(cx.ref_ev[jstar] - cld(cx.sigma.real(), 0)) <= (ld) 1e-10 * cx.normA)
+            {
+                // the eigenvalue at Re sigma itself has nu = 0: no residual scale exists for it (unit norm and finiteness stay asserted)
+                c.cls("pair_at_re_sigma(residual not asserted)");
+                continue;
+            }
             ld K = 0;
             for (size_t j = 0; j < cx.ref_ev.size(); j++)
             {
@@ -130,10 +140,12 @@ static void check_pairs(Solver& eigs, Index ret, const Context& cx, const Args& 
                     cld dnu = -(cld(1) / ((l - cx.sigma) * (l - cx.sigma)) + cld(1) / ((l - std::conj(cx.sigma)) * (l - std::conj(cx.sigma)))) / cld(2);
                     K = std::max(K, 1 / std::abs(dnu));
                 }
+                else if (std::abs(cx.ref_ev[j] - cx.ref_ev[jstar]) <= (ld) 1e-12 * cx.normA)
+                    continue;  // another copy of the same (multiple) eigenvalue: a component along it changes neither residual
                 else
                 {
                     ld dn = std::abs(nu_of(cx, cx.ref_ev[j]) - nu);
-                    K = std::max(K, dn > 0 ? std::abs(cx.ref_ev[j] - th[i]) / dn : std::numeric_limits<ld>::infinity());
+                    K = std::max(K, dn > 0 ? std::abs(cx.ref_ev[j] - cx.ref_ev[jstar]) / dn : std::numeric_limits<ld>::infinity());
                 }
             }
             ld KS = K * cx.R->condS;
@@ -392,6 +404,35 @@ static void run_case(vf::Draw& d, vf::Case& c)
             sig = cld(R.A(j, j) + (d.flag("critical_sign") ? dd : -dd), dd);
             cx.critical_construction = true;
             c.cls("critical_sigma_construction");
+        }
+        // second constructed case (signed permutation matrices: eigenvalues +s / -s are exact when they occur): Re sigma EXACTLY on a real
+        // eigenvalue lambda0 of A. A - sigma I is nonsingular (Im sigma != 0), so the problem is legal; nu(lambda0) = 0, so lambda0 is the least
+        // wanted eigenvalue under LargestMagn and every other pair has its usual scale. Any auxiliary real shift the solver derives from
+        // Re sigma alone hits an exactly singular matrix here.
+        if (mode == COMPLEX_SHIFT && R.cls == 4 && d.flag("re_sigma_on_eigenvalue"))
+        {
+            const ld s0 = R.A.cwiseAbs().maxCoeff();
+            const ld r0 = d.flag("re_sigma_negative") ? -s0 : s0;
+            Eigen::FullPivLU<MatL> lu0(MatL(R.A - r0 * MatL::Identity(n, n)));
+            lu0.setThreshold(0);
+            bool ok = !lu0.isInvertible();
+            cld s(r0, sigi);
+            for (const cld& l : cx.ref_ev)
+            {
+                if (std::abs(l - cld(r0, 0)) <= (ld) 1e-12 * rad)
+                    continue;  // the eigenvalue(s) at Re sigma
+                ld dm = std::min(std::abs(l - s), std::abs(l - std::conj(s)));
+                dm = std::min(dm, std::abs(l - cld(r0, 0)));
+                dm = std::min(dm, std::abs(std::abs(l - cld(r0, 0)) - sigi));
+                if (dm < (ld) 0.01 * rad)
+                    ok = false;
+            }
+            if (ok)
+            {
+                sig = s;
+                cx.re_sigma_on_eigenvalue = true;
+                c.cls("re_sigma_on_eigenvalue_construction");
+            }
         }
         if (sig.real() == 0 && sig.imag() == 0)
             sig = cld(rad / 5, sigi);
